@@ -840,3 +840,30 @@ class RootChip:
         return (implies(known, result == unopt(self._root_chip) and len(_trace) == 0 and self_post._root_chip == self._root_chip)
                 and implies(not known, len(_trace) == 1 and _trace[0] == ("get_software_version", 255, 255, 0) and result == g_position
                             and self_post._root_chip is not None and unopt(self_post._root_chip) == g_position))
+
+
+# ---- get_iobuf: the text is the decoded console buffer of exactly the core named -----------------------------------------------------
+def _iobuf_bytes_rec(E, obj, args, kwargs, st, node):
+    s = st.copy()
+    s.trace = ListV(s.trace.items + (("get_iobuf_bytes",) + _norm(("p", "x", "y"), args, kwargs),))
+    return [(s, ObjV("Bytes", {"ident": 6}), None)]
+
+
+def _bytes_decode(E, obj, args, kwargs, st, node):
+    return [(st, ObjV("Text", {"decoded_from": obj.fields["ident"]}), None)]
+
+
+@contract("rig/machine_control/machine_controller.py::MachineController.get_iobuf")
+class IobufText:
+    """the console text reported for core p of chip (x, y) is decoded from the console buffer of exactly that core"""
+    properties = ("C14",)
+    params = dict(self=TRec("MachineController"), p=TInt(0, 17), x=TInt(0, 255), y=TInt(0, 255))
+    externals = {"MachineController.get_iobuf_bytes": _iobuf_bytes_rec, "Bytes.decode": _bytes_decode}
+    options = {"decorators": {"use_contextual_arguments": "identity"}}
+    assumptions = ["get_iobuf_bytes (contracts IobufStart / IobufBlockStep) is recorded; decoding is opaque"]
+
+    def native(x):
+        raise __import__("pyvc.replay", fromlist=["OutsideHarness"]).OutsideHarness()
+
+    def ensures_this_cores_buffer(p, x, y, result, _trace):
+        return len(_trace) == 1 and _trace[0] == ("get_iobuf_bytes", p, x, y) and result.decoded_from == 6
